@@ -33,6 +33,32 @@ def convFactorP (pA : Bool) (sA oA : K) (pB : Bool) (sB oB : K) : K × K :=
 
 end conv
 
+section denote
+variable {K : Type} [Mul K] [OfNat K 1] [RPow K]
+
+/-- `scale ** q` as `_get_unit_data_from_expr` computes it: a bare symbol is not raised to 1 -/
+def pw (x : K) (q : Rat) : K := if q = 1 then x else RPow.rpow x q
+
+/-- the denotation of a factor list against a table, without the write-back:
+    `(Π scale(sym)^exp, Π dim(sym)^exp)`, `none` when a symbol does not resolve -/
+def denoteF (pre : Prefixes K) (t : Lut K) : Factors → Option (K × Dim)
+  | [] => some (1, Dim.one)
+  | (s, q) :: rest =>
+    match resolve pre t s with
+    | none => none
+    | some ent =>
+      match denoteF pre t rest with
+      | none => none
+      | some (v, d) => some (pw ent.scale q * v, ent.dim.pow q * d)
+
+/-- the denotation of an expression: coefficient times the denotation of its factors -/
+def denote (pre : Prefixes K) (t : Lut K) (e : UExpr K) : Option (K × Dim) :=
+  match denoteF pre t e.factors with
+  | none => none
+  | some (v, d) => some (e.coeff * v, d)
+
+end denote
+
 /-! ### evaluation of an expression against a table (`_get_unit_data_from_expr`) -/
 section ofExpr
 variable {K : Type} [Mul K] [OfNat K 1] [RPow K]
@@ -48,10 +74,10 @@ def evalFactors (pre : Prefixes K) : Lut K → Factors → Except Err (K × Dim 
       match evalFactors pre t' rest with
       | .error e => .error e
       | .ok (v, d, t'') =>
-        let sv := if q = 1 then ent.scale else RPow.rpow ent.scale q
-        .ok (sv * v, (ent.dim.pow q) * d, t'')
+        .ok (pw ent.scale q * v, (ent.dim.pow q) * d, t'')
 
 end ofExpr
+
 
 /-- a unit object; `canon` records whether its dimension object is built from the library's
     singleton symbols (the code branches on `is`; pickling can yield equal-but-not-identical
